@@ -382,6 +382,8 @@ theorem step_gidx (s : State) (e : Event) (w : GidxOK s) : GidxOK (step s e) := 
   | retry ch ok => exact retryOpen_gidx s ch ok w
   | settle r => exact GidxOK.keep (q_settle s r).len (Or.inl (g_settle s r)) w
   | «continue» ex => exact GidxOK.keep (q_continueGame s ex).len (Or.inr (g_continueGame s ex)) w
+  | contReset => exact GidxOK.keep (q_continueGame s true).len (Or.inr (g_continueGame s true)) w
+  | tick ex => exact GidxOK.keep (q_nextMove s ex).len (Or.inl (g_nextMove s ex)) w
 
 theorem create_gidx (cfg : Meta) (b : Blind) : GidxOK (create cfg b) := by
   intro gi hgi; simp [create] at hgi
